@@ -154,6 +154,17 @@ def run_abort(desc):
         skips = [ev for ev in log_full if ev[0] == 'skip']
         if sk != len(skips):
             fail('get_skipped() differs from the number of on_skip calls', skipped=sk, on_skip=len(skips))
+        # every file an independent walk visits goes to exactly one of on_match / on_skip (the walk of C14's oracle)
+        from . import c14 as C14
+        try:
+            want14, visited14 = C14.ref_walk(root, fpat, epat, flags)
+        except Exception:
+            want14 = visited14 = None
+        if visited14 is not None:
+            out.evaluations += 1
+            if len(matches) + len(skips) != visited14 or len(matches) != len(want14):
+                fail('the files visited are not routed one-to-one to on_match / on_skip', visited=visited14, on_match=len(matches), on_skip=len(skips),
+                     expected_matches=len(want14))
         if [u for u in U if u[0] == 'M'] != [('M', os.path.join(b, nm)) for b, nm in []] and False:
             pass
         if len([u for u in U if u[0] == 'M']) != len(matches) or len([u for u in U if u[0] == 'S']) != len(skips):
